@@ -84,9 +84,15 @@ def _replay_extra(r):
         seqlets = pandas.DataFrame({"example_idx": [0, 1, 0, 1], "start": [10, 10, 4, 14], "end": [24, 24, 15, 30]})
         run_ = lambda rows, **kw: tuple(v.numpy() for v in annotate_seqlets(X, seqlets.iloc[rows], motifs, **kw))
         for kw in (dict(n_nearest=1), dict(n_nearest=3), dict(n_nearest=2, n_target_bins=None, n_jobs=2)):
-            alone = [run_([i], **kw) for i in range(4)]
+            try:
+                alone = [run_([i], **kw) for i in range(4)]
+            except Exception as e:
+                return True, "annotate_seqlets raised %s: %s on a one-row selection of a seqlet table" % (type(e).__name__, e)
             for rows in ([0, 1, 2, 3], [3, 2, 1, 0], [1, 0], [1, 1, 0, 0, 3]):
-                idxs, pv = run_(rows, **kw)
+                try:
+                    idxs, pv = run_(rows, **kw)
+                except Exception as e:
+                    return True, "annotate_seqlets raised %s: %s on rows %s of a seqlet table" % (type(e).__name__, e, rows)
                 for k, rr in enumerate(rows):
                     if not numpy.array_equal(pv[k], alone[rr][1][0]) or not numpy.array_equal(idxs[k], alone[rr][0][0]):
                         return True, "annotation of seqlet %d changes when co-annotated with %s" % (rr, rows)
@@ -391,8 +397,11 @@ def worker(cfg):
                 numba_s.get_thread_id = lambda: 0
                 tt.numba.get_thread_id = numba_s.get_thread_id
 
+                all_df = DataFrame({"example_idx": [r_[0] for r_ in rows], "start": [r_[1] for r_ in rows], "end": [r_[2] for r_ in rows]})
+
                 def annot(sel):
-                    df = DataFrame({"example_idx": [rows[r_][0] for r_ in sel], "start": [rows[r_][1] for r_ in sel], "end": [rows[r_][2] for r_ in sel]})
+                    # a positional selection of ONE seqlet table: the rows keep their labels (subset / reversed / repeated rows)
+                    df = all_df.iloc[list(sel)]
                     idxs, pv = ann.annotate_seqlets(X, df, motifs, n_nearest=cfg.get("n_nearest", 2), n_jobs=1, n_score_bins=cfg["n_score_bins"], n_median_bins=50,
                                                     n_target_bins=None, n_cache=30, reverse_complement=rc)
                     return idxs.a, pv.a
